@@ -31,6 +31,9 @@ def qsqrt(q: Fr, bits=66) -> Fr:
     to reduce small (the model divides by norms far more often than it multiplies by them)."""
     q = Fr(q)
     assert q > 0
+    rn, rd = math.isqrt(q.numerator), math.isqrt(q.denominator)
+    if rn * rn == q.numerator and rd * rd == q.denominator:
+        return Fr(rn, rd)                       # exact (vectors with rational norm)
     k = bits + max(0, (q.numerator.bit_length() - q.denominator.bit_length()) // 2 + 2)
     m = math.isqrt(((1 << (2 * k)) * q.denominator) // q.numerator)
     r = Fr(1 << k, m)
@@ -804,8 +807,14 @@ def run(ctx, rep):
         rep.case(key=json.dumps(key, default=str), sample=(rd if i % 97 == 0 else None))
         terms.append(term)
         owners.append(i)
-    bad = vlib.run_shards(ctx, rep, "c11", HEADER, "check", terms, shard=(40 if not ctx.thorough else 100), timeout=900,
-                          case_type="case")
+    # spread the expensive kinds evenly over the shards (cases are generated kind by kind)
+    size = 40 if not ctx.thorough else 100
+    nsh = max(1, -(-len(terms) // size))
+    order = [j for s0 in range(nsh) for j in range(s0, len(terms), nsh)]
+    terms = [terms[j] for j in order]
+    owners = [owners[j] for j in order]
+    size = max(1, -(-len(terms) // nsh))
+    bad = vlib.run_shards(ctx, rep, "c11", HEADER, "check", terms, shard=size, timeout=900, case_type="case")
     rep.extra["shard_cases"] = len(terms)
     if bad is None:
         vlib.broken_obligation(rep, "corr_c11", "a correspondence shard did not compile: " + str(rep.extra.get("shard_errors", ""))[-800:], found)
